@@ -153,7 +153,7 @@ def globify(rng, v):
 
 
 def gen_expr_input(tier, rng):
-    nf, nr, nfam = (40, 24, 60) if tier == 'quick' else (70, 40, 120)
+    nf, nr, nfam = (40, 24, 60) if tier == 'quick' else (100, 50, 200)
     subjects = [{'kind': 'fake', 'obj': fake_obj(rng)} for _ in range(nf)]
     subjects += [real_subject(rng) for _ in range(nr)]
     subjects += [real_subject(rng, 'realpod') for _ in range(max(3, nr // 4))]
@@ -225,7 +225,7 @@ BLN_KEYS = ['name', 'namespace', 'pod/name', 'labels/app', 'pod/labels/app', 'po
 
 
 def gen_bln_input(tier, rng):
-    ncfg, nctr = (60, 32) if tier == 'quick' else (200, 50)
+    ncfg, nctr = (60, 32) if tier == 'quick' else (300, 60)
     ctrs = []
     for i in range(nctr):
         ns = NAMESPACES[i % len(NAMESPACES)] if i < 2 * len(NAMESPACES) else rng.choice(NAMESPACES)
